@@ -44,13 +44,20 @@ func genC15Suffix(rt *rapid.T, label string, nShared, maxLen int, refs []string)
 	n := rapid.IntRange(0, maxLen).Draw(rt, label+"n")
 	var out []c15Entry
 	for i := 0; i < n; i++ {
-		kind := rapid.SampledFrom([]string{"ref", "ref", "ref", "reref", "ann", "ann", "annpair", "prop"}).Draw(rt, label+"kind")
+		kind := rapid.SampledFrom([]string{"ref", "ref", "ref", "reref", "ann", "annpair", "annpair", "prop"}).Draw(rt, label+"kind")
 		if nShared+len(out) == 0 && (kind == "ann" || kind == "annpair") {
 			kind = "ref"
 		}
 		if kind == "annpair" {
 			// a revocation followed by a plain note on the same entry
 			tgt := rapid.IntRange(0, nShared+len(out)-1).Draw(rt, label+"pt")
+			// mostly: the latest reference entry of this suffix (the state a sync would move to)
+			for j := len(out) - 1; j >= 0; j-- {
+				if (out[j].Kind == "ref" || out[j].Kind == "reref") && rapid.IntRange(0, 3).Draw(rt, label+"platest") != 0 {
+					tgt = nShared + j
+					break
+				}
+			}
 			out = append(out, c15Entry{Kind: "ann", Targets: []int{tgt}, Skip: true}, c15Entry{Kind: "ann", Targets: []int{tgt}, Skip: false})
 			i++
 			continue
@@ -78,7 +85,7 @@ func genC15(rt *rapid.T) c15Case {
 	for i := 0; i < ns; i++ {
 		c.Shared = append(c.Shared, c15Entry{Kind: "ref", Ref: rapid.SampledFrom(c15Refs[:3]).Draw(rt, "sref")})
 	}
-	shape := rapid.SampledFrom([]string{"disjoint", "disjoint", "overlap", "local-only", "remote-only"}).Draw(rt, "shape")
+	shape := rapid.SampledFrom([]string{"disjoint", "disjoint", "overlap", "local-only", "remote-only", "remote-only"}).Draw(rt, "shape")
 	localRefs, remoteRefs := c15Refs, c15Refs
 	if shape == "disjoint" {
 		localRefs, remoteRefs = c15Refs[:2], c15Refs[2:]
